@@ -45,6 +45,7 @@ def _run_chunk(argv, lines, tmo, unlimited_stack=False):
         j = i
         buf = b''
         fd = p.stdout.fileno()
+        eof = False
         while j < len(lines):
             deadline = time.time() + tmo
             line = None
@@ -58,6 +59,7 @@ def _run_chunk(argv, lines, tmo, unlimited_stack=False):
                     break
                 chunk = os.read(fd, 1 << 16)
                 if not chunk:
+                    eof = True
                     break
                 buf += chunk
             if line is None:
@@ -65,7 +67,12 @@ def _run_chunk(argv, lines, tmo, unlimited_stack=False):
             res[j] = line.decode('latin-1')
             j += 1
         if j < len(lines):
-            timed = p.poll() is None
+            timed = not eof
+            if eof:
+                try:
+                    p.wait(timeout=120)          # the sanitizer is still writing its report
+                except subprocess.TimeoutExpired:
+                    pass
             try:
                 p.kill()
             except OSError:
